@@ -4,7 +4,7 @@ import tracecheck, progs
 
 PID = "C08"
 PROFILE = {"p_ignore": 0.2, "p_valid_inputs": 0.4, "guard_inputs": [0, 3], "max_guard_depth": 4, "lengths": [4, 6, 8, 10],
-           "weights": dict(input=0.10, const=0.06, bin=0.30, un=0.04, meth=0.12, ite=0.02, guarded=0.17, itelazy=0.09, probe=0.09, ignore=0.0, list=0.01)}
+           "weights": dict(input=0.10, const=0.06, bin=0.25, un=0.04, meth=0.12, ite=0.02, guarded=0.17, itelazy=0.09, probe=0.09, ignore=0.0, list=0.01, **{"raise": 0.05})}
 
 
 def variants(case, rnd):
@@ -22,6 +22,15 @@ def oracle(case, rec, group):
         out.append(dict(op="restore", key="after-%s%s" % ("exception" if rec["exn"] else "return", "-inside-block-api-region" if blk and rec["exn"] else ""),
                         what="after the outermost guarded region ended (%s) the guard / error-suppression mode / constant ONE are not what they were before" % (rec["exn"] or "normally"),
                         observed=dict(guard_is_None=none, ignore_errors=ign, ONE_is_constant=one), pc=rec.get("exn_pc")))
+    # the guard WIRES (not only their values) are a function of the program: two completing runs of one program on
+    # different guard values record the same constraint system (a conjunction computed through a value-dependent shortcut is not one)
+    if group and case is group[0][0]:
+        done = [(c, r) for c, r in group if r["exn"] is None]
+        for c, r in done[1:]:
+            if r["shape"] != done[0][1]["shape"]:
+                out.append(dict(op="conjunction", key="shape", what="the constraint system recorded for the nested regions depends on the guard values",
+                                case=dict(cfg=c["cfg"], prog=c["prog"], ins=c["ins"], other_ins=done[0][0]["ins"])))
+                break
     # inside nested regions the effective guard is the conjunction of the enclosing conditions
     for pc, gval, pign, ctx, one_ok in rec["probes"]:
         if any(cv not in (0, 1) for q, pol, cv in ctx): continue
